@@ -146,19 +146,44 @@ def run_counts(ctx, rng, idx):
     T = [1, 2, 5, 40, int(rng.integers(1, 401))][int(rng.integers(0, 5))]
     fx, fy = int(rng.integers(1, 7)), int(rng.integers(1, 7))
     nx, ny = int(rng.integers(2, 10)), int(rng.integers(2, 10))
+    r = rng.random()
+    if r < 0.06:
+        T = int(rng.integers(3000, 9000))           # long trajectory
+    elif r < 0.12:
+        nx, ny = int(rng.integers(40, 120)), int(rng.integers(2, 90))
+    elif r < 0.18:
+        fx, fy = int(rng.integers(12, 24)), int(rng.integers(1, 20))
     dtype = IDT[int(rng.integers(0, len(IDT)))]
     selfpair = rng.random() < 0.25
+    ydtype = dtype
+    if not selfpair and rng.random() < 0.3:
+        # valid mixed-dtype call (joint_counts harmonises the types); state
+        # ids beyond the narrower type must survive
+        ydtype = IDT[int(rng.integers(0, len(IDT)))]
+        wide = dtype if np.dtype(dtype).itemsize >= np.dtype(
+            ydtype).itemsize else ydtype
+        if np.dtype(wide).itemsize >= 2 and rng.random() < 0.7:
+            if wide == dtype:
+                nx = int(rng.integers(130, 400))
+            else:
+                ny = int(rng.integers(130, 400))
     X0 = gen_feat(rng, T, fx, nx, dtype)
-    Y0 = X0 if selfpair else gen_feat(rng, T, fy, ny, dtype)
+    Y0 = X0 if selfpair else gen_feat(rng, T, fy, ny, ydtype)
+    if not selfpair and rng.random() < 0.5:
+        # make sure the top declared states are actually visited
+        X0[0, 0] = min(nx - 1, int(np.iinfo(dtype).max))
+        Y0[0, 0] = min(ny - 1, int(np.iinfo(ydtype).max))
     X, lx = lay(rng, X0)
     Y, ly = (X, lx) if selfpair else lay(rng, Y0)
     explicit = rng.random() < 0.6
     desc = {'T': T, 'features': [fx, fy], 'states': [nx, ny],
-            'dtype': np.dtype(dtype).name, 'layout': [lx, ly],
+            'dtype': np.dtype(dtype).name,
+            'ydtype': np.dtype(ydtype).name, 'layout': [lx, ly],
             'self': selfpair, 'explicit_counts': explicit,
             'omp': ctx.spec.get('env', {}).get('OMP_NUM_THREADS')}
     ctx.describe(desc)
-    ctx.seen('configs', '%s/%s/%s' % (np.dtype(dtype).name, lx, ly))
+    ctx.seen('configs', '%s/%s/%s/%s' % (np.dtype(dtype).name,
+                                         np.dtype(ydtype).name, lx, ly))
     Xk, Yk = X.copy(), Y.copy()
     try:
         with warnings.catch_warnings():
@@ -167,8 +192,11 @@ def run_counts(ctx, rng, idx):
                 jc = mi.joint_counts(X, n_x=nx if explicit else None)
                 e_nx = e_ny = nx if explicit else int(X0.max()) + 1
             else:
-                jc = mi.joint_counts(X, Y, n_x=nx if explicit else None,
-                                     n_y=ny if explicit else None)
+                as_np = rng.random() < 0.3
+                jc = mi.joint_counts(
+                    X, Y, n_x=(np.int64(nx) if as_np else nx) if explicit
+                    else None, n_y=(np.int32(ny) if as_np else ny)
+                    if explicit else None)
                 e_nx = nx if explicit else int(X0.max()) + 1
                 e_ny = ny if explicit else int(Y0.max()) + 1
     except Exception as e:  # noqa
